@@ -4,6 +4,9 @@ CONSTANTS MaxDepth
 VARIABLES h, c0
 MCKeys == {"lut", "medium", "temperature", "viscosity", "model", "pixel",
            "framerate", "ct21", "ct31"}
+\* ("ct21", "ct31": two crosstalk coefficients; in the two-channel variants of the
+\* replay they are coefficients of the channel pair the dataset holds - fl21/fl31
+\* with channels 1+2, fl13/fl31 with channels 1+3)
 MCVals(k) ==
     CASE k = "lut" -> {"LE-2D-FEM-19"}
       [] k = "medium" -> {"CellCarrier", "other"}
